@@ -88,6 +88,30 @@ def p_lines(t):
     return None
 
 
+def p_abandoned(x):
+    """a caller may stop reading a lazily produced result after its first paragraph; the next, unrelated call answers as
+    if that had not happened"""
+    t1, t2 = x
+    from debian_inspector import debcon
+    for name, f in (('get_paragraphs_as_field_groups', lambda t: _d822.groups_t(deb822.get_paragraphs_as_field_groups(t))),
+                    ('get_paragraphs_data', lambda t: [list(d.items()) for d in debcon.get_paragraphs_data(t)]),
+                    ('split_in_paragraphs', lambda t: list(debcon.split_in_paragraphs(t)))):
+        raw = {'get_paragraphs_as_field_groups': deb822.get_paragraphs_as_field_groups, 'get_paragraphs_data': debcon.get_paragraphs_data,
+               'split_in_paragraphs': debcon.split_in_paragraphs}[name]
+        try:
+            clean = f(t2)
+            it = iter(raw(t1))
+            next(it, None)
+            del it
+            after = f(t2)
+            again = f(t2)
+        except Exception as e:  # noqa
+            return '%s raises %s' % (name, type(e).__name__)
+        if after != clean or again != clean:
+            return '%s(%r) answers %r after a result for %r was left unfinished, %r otherwise' % (name, t2, after, t1, clean)
+    return None
+
+
 def run(ctx):
     rng = ctx.rng
     unicode_sweep.sweep(ctx, ['is_space'])
@@ -126,6 +150,9 @@ def run(ctx):
     bad += ctx.compare('corr:groups', [('groups', [t]) for t in texts], impl)
     bad += ctx.compare('corr:text_lines', [('text_lines', [t]) for t in texts[:20000]], impl)
     fails = ctx.prop('prop:lines', texts, p_lines)
+    two = [t for t in texts[:6000] if '\n\n' in t and len(t) < 400]
+    fails += ctx.prop('prop:unfinished-results', [(rng.choice(two), rng.choice(texts[:6000])) for _ in range(ctx.n(2000, 20000))] +
+                      [('a: 1\nb: 2\n\nc: 3\n', ''), ('a: 1\n\nb: 2\n', 'x: y\n'), ('junk\n\na: 1\n', 'z: 1\n\nw: 2\n')], p_abandoned)
     # large texts (beyond 4096 and 65536 lines) with dense periodic structure: the executable statement only
     big = [G.big_text(rng, n, period, phase, term) for n, period, phase, term in
            [(9000, 2, 0, '\n'), (9000, 2, 1, '\n'), (9000, 3, 0, '\n'), (9000, 3, 1, '\n'), (6000, 2, 0, '\r\n'), (70000, 2, 0, '\n'), (70000, 2, 1, '\n')]]
